@@ -22,6 +22,7 @@ import (
 	"strconv"
 	"strings"
 	"sync"
+	"sync/atomic"
 	"time"
 )
 
@@ -313,13 +314,23 @@ func runWorker(bin, work string, c *Check, tier string, tc TierCfg, seed uint64,
 	}
 	if res.err != nil {
 		b, _ := os.ReadFile(logFile)
-		if len(b) > 6000 {
-			b = b[len(b)-6000:]
+		if len(b) > 9000 {
+			// the first lines name the failure (panic / fatal error), the last ones where the others stood
+			b = append(append(append([]byte{}, b[:3000]...), []byte("\n[...]\n")...), b[len(b)-6000:]...)
 		}
 		res.log = string(b)
+		// keep the whole log of a crashed worker for diagnosis
+		os.WriteFile(filepath.Join(os.TempDir(), fmt.Sprintf("verif-worker-%s-%d.log", c.ID, k)), mustRead(logFile), 0o644)
 	}
 	os.Remove(logFile)
 	return res
+}
+
+var workerRetries int32
+
+func mustRead(path string) []byte {
+	b, _ := os.ReadFile(path)
+	return b
 }
 
 func readRecords(path string) ([]Record, error) {
@@ -745,6 +756,13 @@ func cmdCheck(args []string) int {
 			defer wg.Done()
 			defer func() { <-sem }()
 			results[i] = runWorker(bin, work, c, *tier, tc, seed, j.lo, j.hi, j.k)
+			if results[i].err != nil && !results[i].timeout {
+				// a worker process that died is no verdict; a batch is a pure function of its seeds, so it is
+				// executed once more (a failure caused by the code under test repeats and ends the check with exit 2)
+				fmt.Fprintf(os.Stderr, "verif: %v — batch executed again\n", results[i].err)
+				atomic.AddInt32(&workerRetries, 1)
+				results[i] = runWorker(bin, work, c, *tier, tc, seed, j.lo, j.hi, j.k)
+			}
 		}(i, j)
 	}
 	wg.Wait()
@@ -909,6 +927,9 @@ func cmdCheck(args []string) int {
 		exit = 1
 	}
 
+	if n := atomic.LoadInt32(&workerRetries); n > 0 {
+		counters["worker-batches-executed-again-after-a-process-failure"] += int(n)
+	}
 	// history independence: what a run reports must not depend on the runs executed before it in the same process
 	soloChecked, soloDiffer := 0, 0
 	if c.SoloRuns > 0 {
